@@ -340,7 +340,7 @@ func c19Rejection(r *R) {
 		vr := r.one("C19.6", or, "(datatransfer.Response).VoucherResult")
 		if vr != nil {
 			for _, s := range r.guardedCalls("C19.6", or, false, "(*channels.Channels).NewVoucherResult", 1, "+response.IsValidationResult()", "-response.EmptyVoucherResult()", "+"+r.v(vr)+"#1==nil") {
-				got := r.d.Of(core.Arg(s.Common(), 1))
+				got := r.dOf(s.(ssa.Instruction)).Of(core.Arg(s.Common(), 1))
 				r.c.Check(got == "datatransfer.TypedVoucher{Type:response.VoucherResultType(),Voucher:"+r.v(vr)+"#0}", "C19.6", "OnResponseReceived/result-recorded", r.p.InstrPos(s), "the received result and its type are recorded", "the initiator records "+got)
 			}
 			// recorded before acting on Accepted()
